@@ -80,6 +80,8 @@ def strategy(draw, tier="quick"):
         case["trr_vf"] = draw(st.sampled_from(["v", "f", "vf"]))       # velocity / force blocks as GROMACS writes them
     if draw(st.integers(0, 2)) == 0:
         case["atoms"] = sorted(set(draw(st.lists(st.integers(0, na - 1), min_size=1, max_size=4))))
+        if len(case["atoms"]) > 1 and draw(st.booleans()):
+            case["atoms"] = list(draw(st.permutations(case["atoms"])))      # atom_indices in the caller's order, not ascending
     # (dtr: a new frame file every 256 frames; h5 / nc: storage chunks of ~136 frames at 40 atoms)
     long_ = fmt != "arc" and draw(st.integers(0, 3 if fmt in ("h5", "nc") else 5 if fmt == "dtr" else 14)) == 0
     if long_:
@@ -87,7 +89,7 @@ def strategy(draw, tier="quick"):
         # (3 or 40 atoms: HDF5 / NetCDF lay the frames out in storage chunks of ~64 kB, i.e. 1820 or 136 frames)
         case.update(nf=draw(st.sampled_from([513, 600])), na=40 if fmt in ("h5", "nc") else draw(st.sampled_from([3, 40])), seed=0, long=True)
         if "atoms" in case or (fmt in ("h5", "nc") and draw(st.booleans())):
-            case["atoms"] = [0, 2]
+            case["atoms"] = draw(st.sampled_from([[0, 2], [0, 2], [2, 0]]))
     n = _nframes(case)
     nh = draw(st.sampled_from([1, 1, 2]))
     posn = st.sampled_from([0, 1, 255, 256, 257, 511, 512, n - 1]) if long_ else st.integers(0, n - 1)
@@ -166,6 +168,8 @@ def enumerate_cases(tier):
                 if any(WHERE[k](c, None) for k in keys if k in WHERE):
                     continue
                 yield c
+                if length <= 2 and fmt != "arc":
+                    yield dict(c, atoms=[7, 2, 5])       # the same histories with atom_indices in a non-ascending order
 
 
 def _fields(r):
@@ -209,9 +213,17 @@ def run_case(case):
                 atoms = [a % ref[0].shape[1] for a in atoms]
                 atoms = sorted(set(atoms))
             kw = {"atom_indices": np.array(atoms)}
+            full_xyz = np.asarray(ref[0])
             with _open(fn, case) as fh:
                 ref = _fields(fh.read(**kw))
             labels.append("atom_indices")
+            if list(atoms) != sorted(atoms):
+                labels.append("atom_indices-not-ascending")
+            # the frames read with atom_indices are the selected columns, in the caller's order, of the frames read without
+            sub = np.asarray(ref[0])
+            if sub.shape != full_xyz[:, atoms].shape or not np.array_equal(sub, full_xyz[:, atoms]):
+                return {"viol": [("%s/atom_indices-columns" % fmt, "read(atom_indices=%s) on a fresh handle is not those columns of read(): shape %s vs %s" % (
+                    list(atoms), sub.shape, full_xyz[:, atoms].shape))], "labels": labels, "nontrivial": False}
         handles = [_open(fn, case), _open(fn, case)]
         pos = [0, 0]
         prev = ["open", "open"]
